@@ -18,6 +18,7 @@ M64 = (1 << 64) - 1
 
 PRELUDE = r'''#![allow(dead_code, unused_imports, unused_mut, unused_variables, clippy::all)]
 use core::mem::MaybeUninit;
+use generic_array::typenum::operator_aliases::{Add1, Prod, Sum};
 use generic_array::typenum::*;
 use generic_array::{arr, ArrayLength, GenericArray, LengthError};
 
@@ -239,6 +240,13 @@ def gen_items(tier, seed, lfactor=3):
             name = nm()
             items.append(Item(name, "arr_repeat_const", {"T": tk, "N": n},
                               f"    let a: GenericArray<{ty}, U{n}> = arr![{lit(x)}; {n}];\n    sum!(h, a.as_slice(), {vf});", psum(7, [x] * n, enc)))
+    # arr![x; <type-level expression>]: lengths that have no typenum name and no Const<N> mapping
+    for tk, (ty, vf, draw, lit, enc) in TYPES.items():
+        for n, texpr in [(8, "Add1<U7>"), (1025, "Add1<U1024>"), (1030, "Sum<U1000, U30>"), (3000, "Prod<U1000, U3>")]:
+            x = draw(rng)
+            name = nm()
+            items.append(Item(name, "arr_repeat_type_expression", {"T": tk, "N": n, "type": texpr},
+                              f"    let a: GenericArray<{ty}, {texpr}> = arr![{lit(x)}; {texpr}];\n    sum!(h, a.as_slice(), {vf});", psum(7, [x] * n, enc)))
     # const_default
     for n in NS:
         name = nm()
@@ -347,7 +355,7 @@ def run(root, pid, tier, seed, only=None, lfactor=3, rule=None):
     samples.append({"reject": rejects[0][0], "body": rejects[0][1][:200]})
     return E.evidence(
         pid, tier, seed, "exploration", len(items) + len(rejects), len(nontrivial) + len(rejects),
-        rule or "const items generated for each const fn of the crate (len, from_array/into_array, as_slice, as_mut_slice, from_slice, try_from_slice, from_mut_slice, try_from_mut_slice, chunks_from_slice(_mut), slice_from_chunks(_mut), from_chunks(_mut), into_chunks(_mut), uninit/assume_init, arr! in its three forms, const_default) x N in {0,1,2,3,7,8,16,17,33,64,100,255,256,1024} x slice lengths (every L in 0..=3N+2 for N <= 17, boundary L beyond; N-1, N, N+1, 0 for the fallible forms) x element types u8, u32, (u8,u16), () x shared / mutable forms with writes through the result; seeded data. "
+        rule or "const items generated for each const fn of the crate (len, from_array/into_array, as_slice, as_mut_slice, from_slice, try_from_slice, from_mut_slice, try_from_mut_slice, chunks_from_slice(_mut), slice_from_chunks(_mut), from_chunks(_mut), into_chunks(_mut), uninit/assume_init, arr! in its three forms (including type-level length expressions without a name), const_default) x N in {0,1,2,3,7,8,16,17,33,64,100,255,256,1024} x slice lengths (every L in 0..=3N+2 for N <= 17, boundary L beyond; N-1, N, N+1, 0 for the fallible forms) x element types u8, u32, (u8,u16), () x shared / mutable forms with writes through the result; seeded data. "
         "Oracle: (1) the compiler's const evaluator accepts the item (it rejects out-of-bounds and dangling pointers, writes through read-only provenance, uninitialised reads, invalid values with E0080); (2) its value - a checksum over every length and every element read - equals the value python computed natively; (3) main() re-evaluates the same const fn at run time and compares with the const value. Reject items (from_slice / from_mut_slice with L != N, chunks with N = 0 and a non-empty slice, assume_init of a partly written array) are compiled separately and must fail with E0080. "
         "non-trivial = items with N >= 1 and all reject items; distinct = distinct (template, parameters)",
         samples, classes, exhaustive=False,
